@@ -7,7 +7,7 @@ import numpy as np
 from hypothesis import strategies as st
 
 from vf import arrays as A
-from vf.core import Reject, Sub, Violation, impl, reference
+from vf.core import Reject, Sub, Violation, canon_json, impl, reference
 
 PROPERTY = "C19"
 PRELOAD = ["dask.array"]
@@ -16,8 +16,10 @@ RULE = (
     "enum: binary ops on two operands of shapes drawn from a fixed list of broadcast-compatible small shape pairs "
     "(incl. size-0, size-1, 0-d) under ALL chunkings of both operands; hyp: 1-3 operands (dask arrays / NumPy arrays / "
     "Python scalars) of random broadcast-compatible shapes, dtypes bool/ints/uints/floats/complex/datetime, random "
-    "chunkings incl. explicit zero-size chunks, ops: arithmetic, comparisons, bitwise, ~35 ufuncs, where=/out= ufunc "
-    "arguments, da.where, astype(casting), clip, round, isnan/isfinite, datetime +/- timedelta. Oracle: the same "
+    "chunkings incl. explicit zero-size chunks, ops: arithmetic, comparisons, bitwise, ~35 ufuncs, "
+    "da.where, astype(casting), clip, round, isnan/isfinite, datetime +/- timedelta; ufunc_kwargs: ufuncs called with where= "
+    "(True/False/NumPy mask/dask mask/broadcast mask) and out= (pre-filled dask array), 1-3 variants over the SAME "
+    "operands, each computed alone, all in one dask.compute, and combined into one expression. Oracle: the same "
     "expression on the NumPy operands (same dtype, values exact / NaN-aware). Non-trivial: two dask operands with different "
     "chunkings along a shared axis, or a broadcast dimension with >=2 blocks on the other operand."
 )
@@ -87,9 +89,6 @@ def apply(case, ops, lib):
         return getattr(lib, op["name"])(ops[0])
     if kind == "where":
         return lib.where(ops[0], ops[1], ops[2])
-    if kind == "ufunc_where":
-        # np.add(a, b, where=mask, out=zeros)
-        raise NotImplementedError
     if kind == "astype":
         return ops[0].astype(op["dtype"], casting=op.get("casting", "unsafe"))
     if kind == "clip":
@@ -277,6 +276,131 @@ def random_case(draw):
     return {"operands": [a], "op": {"kind": "round", "decimals": draw(st.integers(-1, 2))}}
 
 
+# --------------------------------------------------------------------------
+# ufunc keyword arguments: where= / out= / dtype=, one or several variants over the SAME operands,
+# each evaluated alone, all evaluated in one dask.compute, and all combined into one expression.
+
+KW_BINARY = ["add", "subtract", "multiply", "maximum", "minimum", "less", "logical_and", "true_divide"]
+KW_UNARY = ["negative", "absolute", "square", "sqrt"]
+
+
+def _mask(spec, shape):
+    k = spec["kind"]
+    if k == "true":
+        return True, True
+    if k == "false":
+        return False, False
+    shp = tuple(shape) if k in ("np", "da") else tuple(shape)[-1:]  # "bcast": trailing axis only
+    m = np.random.default_rng(spec["seed"]).random(shp) < 0.5
+    if k == "da":
+        import dask.array as da
+
+        return m, da.from_array(m, chunks=tuple(max(1, n // 2) for n in shp) or ())
+    return m, m
+
+
+def check_kwargs(case):
+    import dask
+    import dask.array as da
+
+    uf = case["ufunc"]
+    np_uf, da_uf = getattr(np, uf), getattr(da, uf)
+    pairs = [operand(o) for o in case["operands"]]
+    nps = [p[0] for p in pairs]
+    dks = [p[1] for p in pairs]
+    shape = np.broadcast_shapes(*[np.shape(a) for a in nps])
+    sig = dict(
+        op=uf,
+        kw=True,
+        zero_chunk=any(A.has_zero_chunk(o["array"]["chunks"]) for o in case["operands"] if o["kind"] == "da"),
+        multiblock_len1_axis=any(
+            n == 1 and len(c) > 1 for o in case["operands"] if o["kind"] == "da" for n, c in zip(o["array"]["shape"], o["array"]["chunks"])
+        ),
+    )
+    wants, lazies = [], []
+    for v in case["variants"]:
+        kw_np, kw_da = {}, {}
+        if v.get("dtype"):
+            kw_np["dtype"] = kw_da["dtype"] = v["dtype"]
+        with np.errstate(all="ignore"):
+            status, plain = reference(lambda: np_uf(*nps, **kw_np))
+        if status == "err":
+            raise Reject("NumPy rejects the plain call")
+        m_np, m_da = _mask(v["where"], shape)
+        if v.get("out") is not None or m_np is not True:
+            fill = (v.get("out") or {"fill": 0})["fill"]
+            o_np = np.full(shape, fill, dtype=np.asarray(plain).dtype)
+            o_da = da.full(shape, fill, dtype=o_np.dtype, chunks=tuple(max(1, n // 2) for n in shape) or ())
+            kw_np["out"], kw_da["out"] = o_np, o_da
+        if m_np is not True:
+            kw_np["where"], kw_da["where"] = m_np, m_da
+        with np.errstate(all="ignore"):
+            status, want = reference(lambda: np_uf(*nps, **kw_np))
+        if status == "err":
+            raise Reject("NumPy rejects these keyword arguments")
+        with impl("ufunc with keyword arguments", **sig), np.errstate(all="ignore"):
+            r = da_uf(*dks, **kw_da)
+        if not isinstance(r, da.Array):
+            raise Reject("result is not a dask array")
+        wants.append(np.asarray(want))
+        lazies.append(r)
+    desc = f"{uf}{[o['kind'] for o in case['operands']]} variants={case['variants']}"
+    for i, (r, w) in enumerate(zip(lazies, wants)):
+        with impl("compute alone", **sig), np.errstate(all="ignore"):
+            got = r.compute(scheduler="sync")
+        A.same_array(got, w, what=f"{desc}: variant {i} alone", sig=dict(sig, stage="alone"))
+        A.check_meta(r, got, sig=sig)
+    if len(lazies) > 1:
+        with impl("compute jointly", **sig), np.errstate(all="ignore"):
+            joint = dask.compute(*lazies, scheduler="sync")
+        for i, (g, w) in enumerate(zip(joint, wants)):
+            A.same_array(g, w, what=f"{desc}: variant {i} computed jointly with the others", sig=dict(sig, stage="joint"))
+        with np.errstate(all="ignore"):
+            tot_w = sum((i + 1) * w.astype("c16" if w.dtype.kind == "c" else "f8") for i, w in enumerate(wants))
+            with impl("combine variants", **sig):
+                tot_d = sum((i + 1) * r.astype("c16" if r.dtype.kind == "c" else "f8") for i, r in enumerate(lazies))
+                got = tot_d.compute(scheduler="sync")
+        A.same_array(got, tot_w, what=f"{desc}: weighted sum of the variants", sig=dict(sig, stage="combined"))
+
+
+@st.composite
+def kwargs_case(draw):
+    binary = draw(st.booleans())
+    uf = draw(st.sampled_from(KW_BINARY if binary else KW_UNARY))
+    dts = ["bool", "i4", "i8", "f4", "f8", "c16"] if uf not in ("maximum", "minimum", "less", "sqrt") else ["i4", "i8", "f4", "f8"]
+    if binary:
+        sa, sb = draw(broadcast_shapes_strategy(2))
+        a = draw(operand_spec(sa, dts, force_da=True))
+        b = draw(operand_spec(sb, dts))
+        operands = [a, b] if draw(st.booleans()) else [b, a]
+    else:
+        (sa,) = draw(broadcast_shapes_strategy(1))
+        operands = [draw(operand_spec(sa, dts, force_da=True))]
+    nvar = draw(st.sampled_from([1, 2, 2, 3]))
+    variants = []
+    for _ in range(nvar):
+        w = {"kind": draw(st.sampled_from(["true", "false", "np", "np", "da", "bcast"])), "seed": draw(st.integers(0, 3))}
+        out = draw(st.sampled_from([None, {"fill": 0}, {"fill": 7}, {"fill": 1}]))
+        # (dtype= is not among the arguments C19 lists: NumPy selects the inner loop with it, dask casts the
+        # result - a documented difference; it is exercised for name collisions only, in C13)
+        variants.append({"where": w, "out": out, "dtype": None})
+    return {"operands": operands, "ufunc": uf, "variants": variants}
+
+
+def kw_nontrivial(case):
+    vs = case["variants"]
+    return len(vs) >= 2 and len({canon_json(v) for v in vs}) >= 2 and any(v["where"]["kind"] not in ("true",) or v["out"] for v in vs)
+
+
+def kw_classes(case):
+    yield "variants-%d" % len(case["variants"])
+    for v in case["variants"]:
+        yield "where-" + v["where"]["kind"]
+        yield "out" if v["out"] else "no-out"
+        if v["dtype"]:
+            yield "dtype-kw"
+
+
 SUBCHECKS = [
     Sub(
         "enum",
@@ -296,5 +420,14 @@ SUBCHECKS = [
         nontrivial=nontrivial,
         classes=classes,
         doc="random operands (dask/NumPy/scalars), dtypes, chunkings (incl. zero-size chunks) and ops",
+    ),
+    Sub(
+        "ufunc_kwargs",
+        check_kwargs,
+        strategy=lambda tier: kwargs_case(),
+        n={"quick": 1500, "thorough": 40000},
+        nontrivial=kw_nontrivial,
+        classes=kw_classes,
+        doc="ufuncs with where=/out=: 1-3 variants over the same operands, each alone, all in one compute, and combined into one expression",
     ),
 ]
